@@ -302,6 +302,7 @@ def execute(s, ch):
                               "ended at event %d, span closed at event %d (%s)" % (ser, func, last_of_inv.get(ser), cseq_ev,
                                                                                    ev[cseq_ev][1:6])))
         # ---- deferred snapshots: expected openings from the delivered events and a reference limiter
+        wire_by_id = {sn.ID.hex(): sn for (_, _, sn, _) in w.service.snapshots}
         pushes = {}
         for (seq, th, kind, tp_id, payload) in rec.all_effects:
             if kind == "snapshot":
@@ -344,6 +345,21 @@ def execute(s, ch):
                                   "opening event %d (%s %s:%d) in %s" % (seq, event, func, line, th)))
                     continue
                 pseq, pth, es = got[0]
+                # what the service received for it (the snapshot is converted on a worker while the application goes on)
+                wire = wire_by_id.get(format(es.id, "032x"))
+                if wire is None:
+                    viol.append(V("deferred-snapshot-not-delivered:%s" % shape, "pushed at event %d, never received" % pseq))
+                else:
+                    caps_w = [w_ for w_ in wire.watches if w_.source == 3]
+                    ended = ev[pseq][2] in ("return", "exception")
+                    if ended and not caps_w:
+                        viol.append(V("captured-result-missing-on-the-wire:%s" % shape, "completed by a %s event, the "
+                                      "delivered snapshot carries no capture (in-process object has %d)" % (
+                                          ev[pseq][2], len([w_ for w_ in es.watches if w_.source == "CAPTURE"]))))
+                    for w_ in caps_w:
+                        if not w_.HasField("good_result") or w_.good_result.ID not in wire.var_lookup:
+                            viol.append(V("captured-result-dangling-on-the-wire:%s" % shape, "capture %r -> id %r not in the "
+                                          "delivered variable table %s" % (w_.expression, w_.good_result.ID, sorted(wire.var_lookup))))
                 if pth != th:
                     viol.append(V("deferred-snapshot-sent-on-other-thread:%s" % shape, "%s vs %s" % (th, pth)))
                 if pseq <= seq:
